@@ -779,6 +779,16 @@ def check(run):
     iwa = emission.analyse_writer(il_w, facts)
     cons_il = [c for c in consumption.consumes_in(il_r["body"], facts) if not c.kind.startswith("RAW:")]
     rk = [c.kind for c in cons_il]
+    if len(rk) == 2 and rk[0] == rk[1]:
+        # one loop per length form (`if (indef) { while (peek != BREAK) BODY; read_break(); } else { for (; length > 0; length--) BODY }`):
+        # the two bodies are alternatives, not a sequence, when they are the same statements
+        from .. import normalize as _nz
+        for if_ in ir.walk(il_r["body"]):
+            if if_.get("k") == "If" and if_.get("else") is not None:
+                l1 = [x for x in ir.walk(if_["then"]) if x.get("k") in ("While", "For", "Do")]
+                l2 = [x for x in ir.walk(if_["else"]) if x.get("k") in ("While", "For", "Do")]
+                if len(l1) == 1 and len(l2) == 1 and _nz._alpha_equal(ir.stmts(l1[0].get("body")), ir.stmts(l2[0].get("body")), {}):
+                    rk = rk[:1]
     if rk == ["ARRAY"] and cons_il[0].detail is not None:
         # the array loop (read_array with a callback, or the same loop written out): what one element consumes
         rk = [c.kind for c in consumption.consumes_in(cons_il[0].detail.get("body"), facts) if not c.kind.startswith("RAW:")]
